@@ -10,7 +10,7 @@ git -C /repo worktree add --detach "$W/bbolt" HEAD >/dev/null 2>&1 || exit 3
 [ "$PATCH" = "-" ] || ( cd "$W/bbolt" && git apply "$PATCH" ) || { echo "PATCH DOES NOT APPLY"; exit 3; }
 cd "$W/bbolt"
 if [ -n "$RUN" ]; then "$GO" test -mod=mod -vet=off -count=1 -timeout 25m -run "$RUN" . 2>&1 | tail -25; exit 0; fi
-"$GO" test -mod=mod -json -vet=off -count=1 -timeout 25m ./... > "$W/suite.json" 2>"$W/suite.err"
+"$GO" test -mod=mod -json -vet=off -count=1 -timeout 120m ./... > "$W/suite.json" 2>"$W/suite.err"
 python3 - "$W/suite.json" <<'PY'
 import json,sys
 base=json.load(open('/root/.vp/BASELINE.json'))
